@@ -581,6 +581,7 @@ func (r *Request) reply(payload []byte) {
 		panic("res: response already sent on request")
 	}
 	r.replied = true
+	verifPoint("publish.enter", r.msg.Reply)
 	r.s.tracef("<== %s: %s", r.msg.Subject, payload)
 	err := r.s.nc.Publish(r.msg.Reply, payload)
 	if err != nil {
